@@ -675,6 +675,28 @@ def swapaxes02ThenIndex (i : Nat) (a : Arr) : Option Arr :=
   | none => none
   | some sel => (sel.rows).map fun rs => .node ((transposeRows rs).map .node)
 
+/-! ## comparison ops and their mirror images (`a op b = b (mirror op) a`) -/
+
+inductive Cmp where
+  | lt | le | gt | ge | eq | ne
+  deriving DecidableEq, Repr
+
+def Cmp.eval : Cmp → Int → Int → Bool
+  | .lt, a, b => decide (a < b)
+  | .le, a, b => decide (a ≤ b)
+  | .gt, a, b => decide (a > b)
+  | .ge, a, b => decide (a ≥ b)
+  | .eq, a, b => decide (a = b)
+  | .ne, a, b => decide (a ≠ b)
+
+def Cmp.mirror : Cmp → Cmp
+  | .lt => .gt | .le => .ge | .gt => .lt | .ge => .le | .eq => .eq | .ne => .ne
+
+/-- the table of seeded defect C18_11: `ge ↦ lt` instead of `le` -/
+def Cmp.mirrorSlip : Cmp → Cmp
+  | .ge => .lt
+  | op => op.mirror
+
 /-! ## printing of parametrised ops (`program._print_op`, funsor/ops/program.py:101-108)
 
   An op instance is its class plus the current value of every parameter, in signature order
